@@ -89,7 +89,7 @@ def main(argv):
             print(f"ANALYSIS-BROKEN: property={prop} {e}")
             status = 2
         except Exception as e:  # analyser bug: never a VIOLATION
-            traceback.print_exc()
+            traceback.print_exc(limit=-6)
             print(f"ANALYSIS-ERROR: property={prop} {type(e).__name__}: {e}")
             status = 2
         worst = max(worst, status)
